@@ -42,6 +42,10 @@ pub const ORIG_CLASSES: &[&str] = &[
     "p.\u{1D49C}x$y",
     "é$",
     "q.$é$x",
+    // `[]` inside / at the end of a class name (array suffixes are appended to, never cut from, a name)
+    "com.example.Matrix[]",
+    "com.example.Row[]View",
+    "x[]",
 ];
 pub const OBF_METHODS: &[&str] = &["a", "b", "m", "<init>", "c", "ab", "a$", "k", "onClick", "\u{1D49C}", "\u{FF21}",
     // NUL inside a name: `(name, args)` compared as a tuple vs as one joined string
@@ -500,6 +504,21 @@ pub fn gen_mapping(rng: &mut Rng, cfg: &Cfg) -> GenMapping {
         }
         let members: Vec<String> = lines[block_start..].iter().filter(|l| l.starts_with("    ") && l.contains('(')).cloned().collect();
         earlier.push((used.last().unwrap().clone(), members));
+    }
+    // member lines of the first class repeated *before* the first class line (what a section that
+    // starts mid-class looks like): they belong to no class, and must not influence the class that
+    // follows (de-duplication state, counts)
+    if rng.pct(5) {
+        if let Some((_, ms)) = earlier.first() {
+            if !ms.is_empty() {
+                if let Some(at) = lines.iter().position(|l| !l.starts_with(' ') && !l.starts_with('#') && l.contains(" -> ") && l.ends_with(':')) {
+                    let k = rng.range(1, 2).min(ms.len());
+                    for j in 0..k {
+                        lines.insert(at + j, ms[j].clone());
+                    }
+                }
+            }
+        }
     }
     // terminators
     let term = cfg.term.unwrap_or(rng.pick(&[Term::Lf, Term::Lf, Term::CrLf, Term::Cr, Term::Mixed]));
